@@ -357,6 +357,55 @@ func (c *Ctx) redisLoserOutcome(r *redisRoles, rule string) {
 		visit(ev, nil, nil)
 	}
 	c.Decide(rule, fn, "lost optimistic transaction -> ErrConflict", nil, ok, "a CasByVersion that loses the WATCH/EXEC race does not report ErrConflict: the loser receives the driver's 'redis: transaction failed'")
+	// the class of the loser is decided by a fresh read: a transaction is also lost when the watched key was DELETED (or
+	// expired) in between - then no record with "another version" exists and the contract's answer is ErrNotExist. On
+	// the TxFailedErr edge the key is read again and the error of that read can reach the result.
+	reread := false
+	for _, b := range fn.Blocks {
+		underTx := ir.HasFact(b, func(f ir.Fact) bool {
+			if cm, isCmp := f.Cmp(); isCmp && cm.Op == token.EQL && (isTxFailed(cm.X) || isTxFailed(cm.Y)) {
+				return true
+			}
+			ff := f.StripNot()
+			call, isCall := ff.Cond.(*ssa.Call)
+			return isCall && ff.True && strings.HasSuffix(ir.CalleeFullName(call), "errors.Is") && len(call.Call.Args) == 2 && isTxFailed(call.Call.Args[1])
+		})
+		if !underTx {
+			continue
+		}
+		for _, in := range b.Instrs {
+			call, isCall := in.(*ssa.Call)
+			if !isCall {
+				continue
+			}
+			isRead := ir.StaticCallee(call) == r.storage["Get"] || redisCmd(call, "Get") != nil || redisCmd(call, "Exists") != nil
+			if !isRead {
+				continue
+			}
+			// the read's error reaches the returned error
+			for _, ret := range ir.Returns(fn) {
+				for _, o := range ir.Origins(ir.ResultValue(ret, ir.ErrResultIndex(fn))) {
+					if ex, isEx := o.(*ssa.Extract); isEx && ex.Tuple == ssa.Value(call) {
+						reread = true
+					}
+					if oc, isC := o.(*ssa.Call); isC {
+						// checkErr(err) of the read / .Err() of the command
+						for _, a := range oc.Call.Args {
+							for _, o2 := range ir.Origins(a) {
+								if ex, isEx := o2.(*ssa.Extract); isEx {
+									if res, isRes := ex.Tuple.(*ssa.Call); isRes && (res == call || ir.Recv(res) == ssa.Value(call)) {
+										reread = true
+									}
+								}
+							}
+						}
+					}
+				}
+			}
+		}
+	}
+	c.Decide(rule, fn, "lost transaction: the key is read again to tell a conflict from a removal", nil, reread,
+		"every lost WATCH/EXEC transaction is reported as ErrConflict, but a transaction is also lost when the watched key was deleted or expired in between: the loser is told 'another version is stored' about a record that does not exist (no sequential order of the CAS and the Delete yields ErrConflict); the key must be read again and the read's ErrNotExist returned")
 }
 
 // redisTTL is C06.R3/R4/R5 (and C03.R6).
